@@ -31,3 +31,14 @@ package signature
 //@   loop 1 invariant range: -1 <= $ri && $ri < len(xsig().SignedInfo.Reference.Transforms.Transform)
 //@   loop 1 invariant copied-so-far: len(#transforms) == $ri + 1 &&
 //@             (forall j :: 0 <= j && j <= $ri ==> #transforms[j].Algorithm == xsig().SignedInfo.Reference.Transforms.Transform[j].Algorithm)
+//@
+//@ func signature.ValidateRedirect
+//@   inline
+//@   property C05
+//@   enter vrdCalls = vrdCalls + 1
+//@   enter vrdAlg = sigAlg
+//@   enter vrdElem = string(elementToSign)
+//@   enter vrdSig = string(signature)
+//@   enter vrdKeyTag = tagof(pubKey)
+//@   enter vrdKeyVal = valof(pubKey)
+//@   leave vrdOK = (result == nil)
